@@ -4,6 +4,7 @@ import PatVerif.Generated.ScLimbs
 import PatVerif.Generated.FeLimbs
 import PatVerif.Generated.EdPoints
 import PatVerif.Model.Recode
+import PatVerif.Model.ScalarMultLit
 /-! Second driver (C14/C15 only): runs the *translated* limb code of `Generated/ScLimbs.lean` and `Generated/FeLimbs.lean` — the
 definitions `Proofs/Sc*.lean` and `Proofs/Fe*.lean` are about — on the scalar and field operations of the stream, so that the
 translators' reading of the Go source is itself compared with the implementation on every run. -/
@@ -117,6 +118,39 @@ def answer (line : String) : String :=
         | _ => "-"
       else "-"
     | none => "-"
+  -- scalar multiplications: translated decoder and `SetBytes`, literal recodings, the literal transcription of scalarmult.go / tables.go
+  -- over the translated formulas (Model/ScalarMultLit.lean), translated encoder. `clamp` (SetBytesWithClamping) is not translated.
+  | ["c14.sm", op, a, A, b] =>
+    match parseV a, parseV A, parseV b with
+    | some a, some A, some b =>
+      if a.length = 32 ∧ b.length = 32 then
+        let sc := fun (x : Bytes) => (Scalar_SetBytes (asFn x)).map Int.toNat
+        let enc := fun (P : PatVerif.Generated.EdPoints.Point) => "ok " ++ hxv (Pt.encode P)
+        match op with
+        | "base" =>
+          match PatVerif.Model.Recode.signedRadix16 (sc a) with
+          | some ds => enc (PatVerif.Model.ScalarMultLit.scalarBaseMult PatVerif.Model.ScalarMultLit.basepointTable ds)
+          | none => "panic"
+        | "var" =>
+          match Pt.decode A with
+          | some P =>
+            match PatVerif.Model.Recode.signedRadix16 (sc a) with
+            | some ds => enc (PatVerif.Model.ScalarMultLit.scalarMult ds P)
+            | none => "panic"
+          | none => "undecodable"
+        | "double" =>
+          match Pt.decode A with
+          | some P =>
+            match PatVerif.Model.Recode.nonAdjacentForm (sc a) 5, PatVerif.Model.Recode.nonAdjacentForm (sc b) 8 with
+            | some an, some bn =>
+              match PatVerif.Model.ScalarMultLit.doubleScalarMult PatVerif.Model.ScalarMultLit.basepointNafTable an bn P with
+              | some R => enc R
+              | none => "panic"
+            | _, _ => "panic"
+          | none => "undecodable"
+        | _ => "-"
+      else "-"
+    | _, _, _ => "-"
   | ["c14.pt", op, a, b] =>
     match parseV a, parseV b with
     | some a, some b => Pt.run op a b
